@@ -29,6 +29,7 @@ func ruleC18(prog *Program, rep *Report) {
 	ruleNumFamily(prog, rep, 4, "alt", "gen")
 	ruleSelfRec(prog, rep, 4, "gen", "alt")
 	ruleRecvGuard(prog, rep, 4, "gen")
+	ruleInfSign(prog, rep, 1, "gen")
 	ruleTimeEq(prog, rep, "alt", "gen")
 	ruleRecursionDropsOptions(prog, rep, "alt")        // options given to a conversion apply at every depth
 	ruleFloatNarrow(prog, rep, "pretty", "alt", "gen") // a gen.Float printed or converted through float32 differs from the float64 it stands for
